@@ -35,7 +35,7 @@ for mu in M:
             if not os.path.exists(os.path.join(VERIF, 'fxv', 'checks', prop.lower() + '.py')):
                 continue
             t = time.time()
-            env = dict(os.environ, FURAX_SRC=os.path.join(d, 'src'))
+            env = dict(os.environ, FURAX_SRC=os.path.join(d, 'src'), VERIF_EVIDENCE_DIR=os.path.join(VERIF, '.work', 'evidence_selftest'))
             p = subprocess.run([os.path.join(VERIF, 'check'), prop, '--tier', 'quick'], capture_output=True, text=True, env=env)
             tail = [l for l in p.stdout.splitlines() if l.startswith(('VIOLATION', 'HARNESS', '#'))][:2]
             rows.append((mu['id'], prop, f'exit={p.returncode} {time.time() - t:.0f}s ' + ' | '.join(x[:160] for x in tail)))
